@@ -28,35 +28,83 @@ func checkFraming(p *Prog, r *Report) {
 		return
 	}
 	nReaders := 0
-	for _, cs := range g.callers[dp] {
-		f := cs.Parent()
-		call, ok := cs.(*ssa.Call)
-		if !ok {
-			continue
-		}
-		// is this caller a stream reader? (uses a *bufio.Reader)
-		var readerVals []ssa.Value
+	usesReader := func(f *ssa.Function) bool {
+		found := false
 		eachInstr(f, func(in ssa.Instruction) {
 			if c := callOf(in); c != nil {
 				for _, a := range c.Args {
 					if typeName(a.Type()) == "bufio.Reader" {
-						readerVals = append(readerVals, a)
+						found = true
 					}
 				}
 			}
 		})
-		if len(readerVals) == 0 {
-			continue // datagram path (UDP): one packet = one message, framing does not apply
-		}
-		nReaders++
-		k := fnKey(f)
-		// (a) argument chain
-		nb, ok := call.Call.Args[1].(*ssa.Call)
-		if !ok || calleeName(&nb.Call) != "bytes.NewBuffer" {
-			r.Violation("R-FRAME.message-bytes", k+": bytes handed to decodePacket", p.instrPos(cs), "decodePacket is not given bytes.NewBuffer(<message buffer>)")
+		return found
+	}
+	// a site is a call, inside a function that reads from a bufio.Reader, that hands a message buffer to decodePacket -
+	// directly, or through one helper that wraps one of its parameters in bytes.NewBuffer and calls decodePacket
+	type site struct {
+		cs     ssa.Instruction
+		call   *ssa.Call
+		buf    ssa.Value
+		helper *ssa.Function
+	}
+	var sites []site
+	for _, cs := range g.callers[dp] {
+		call, ok := cs.(*ssa.Call)
+		if !ok {
 			continue
 		}
-		buf := nb.Call.Args[0]
+		f := cs.Parent()
+		nb, isNB := call.Call.Args[1].(*ssa.Call)
+		if usesReader(f) {
+			if !isNB || calleeName(&nb.Call) != "bytes.NewBuffer" {
+				nReaders++
+				r.Violation("R-FRAME.message-bytes", fnKey(f)+": bytes handed to decodePacket", p.instrPos(cs), "decodePacket is not given bytes.NewBuffer(<message buffer>)")
+				continue
+			}
+			sites = append(sites, site{cs, call, nb.Call.Args[0], nil})
+			continue
+		}
+		// helper form
+		var prm *ssa.Parameter
+		if isNB && calleeName(&nb.Call) == "bytes.NewBuffer" {
+			prm, _ = nb.Call.Args[0].(*ssa.Parameter)
+		}
+		if prm == nil {
+			continue // datagram path (UDP): one packet = one message, framing does not apply
+		}
+		idx := -1
+		for i, fp := range f.Params {
+			if fp == prm {
+				idx = i
+			}
+		}
+		for _, cs2 := range g.callers[f] {
+			c2, ok := cs2.(*ssa.Call)
+			if !ok || !usesReader(cs2.Parent()) || idx < 0 || idx >= len(c2.Call.Args) {
+				continue
+			}
+			sites = append(sites, site{cs2, c2, c2.Call.Args[idx], f})
+			// the helper must report a decoding failure to the read loop: an error result that is non-nil whenever decodePacket failed
+			hasErr := errResultIndex(f.Signature) >= 0
+			propagates := false
+			if hasErr {
+				for _, e := range extractOf(call, 1) {
+					if errEdgeReturns(e) {
+						propagates = true
+					}
+				}
+			}
+			r.Check(hasErr && propagates, "R-FRAME.error-exit", fmt.Sprintf("%s: decoding failure reported to the read loop", fnKey(f)), p.instrPos(cs),
+				"the helper returns decodePacket's error", "the helper that decodes a message does not return the decoding error to the read loop: the loop goes on and delivers the messages that follow an undecodable one (already buffered bytes are still readable after conn.Close())", true)
+		}
+	}
+	for _, st := range sites {
+		cs, call, buf := st.cs, st.call, st.buf
+		f := cs.Parent()
+		nReaders++
+		k := fnKey(f)
 		// full read of buf on the path
 		var full *ssa.Call
 		eachInstr(f, func(in ssa.Instruction) {
